@@ -96,14 +96,38 @@ def deltas_dtype(ctx, R="R-C15-dtype"):
               "the correlated slice has dtype %s, not float64" % sorted(dt.of(c.args[0])))
     ok = len(c.args) == 3 and astq.const_str(c.args[2]) == "full"
     ctx.check(ok, R, f, c, "each slice is correlated in 'full' mode", "correlation call is %s" % astq.text(c)[:80])
-    pad = c.args[0]
-    if isinstance(pad, ast.Call) and prog.qualify(f.module, pad.func, f) == "numpy.pad":
-        ok = astq.eq_text(pad.args[1], "(max_offset,max_offset)") and astq.text(pad.args[2]) == "self._pad_mode" and \
-            any(k.arg is None and astq.text(k.value) == "self._pad_kwargs" for k in pad.keywords)
-        ctx.check(ok, R, f, pad, "each slice is padded by max_offset on both sides with the configured mode and keyword arguments",
-                  "padding call is %s" % astq.text(pad)[:120])
+    # the padded operand: np.pad(...) directly, or through a local / a slice of it
+    pm0 = astq.parents(f)
+    ev = SymEval(prog, f, inline_props=False).run()
+    stc = astq.enclosing_stmt(pm0, c)
+    ctx.need(ev.reached(stc), R, "the correlation is not reached by forward substitution")
+    opnd = ev.eval_at(stc, c.args[0])
+    filt_e = ev.eval_at(stc, c.args[1])
+    pads = [x for x in S.walk(opnd) if cc.is_call(x, "np.pad")]
+    if not pads:
+        raise AnalysisError("%s: the correlated operand does not come from np.pad(...): idiom not modelled" % R)
+    pd = pads[0]
+    ctx.need(len(pd.args) >= 4 and cc.is_call(pd.args[2], "tuple") and len(pd.args[2].args) == 3, R, "np.pad widths are not a pair")
+    flen = S.sym("flen")
+    wl = S.subst(pd.args[2].args[1], {S.call("len", filt_e): flen})
+    wr = S.subst(pd.args[2].args[2], {S.call("len", filt_e): flen})
+    want_w = S.floordiv(S.sub(flen, S.ONE), S.lift(2))
+    foreign = [x for x in S.walk(wl) if cc.is_call(x, "len")] + [x for x in S.walk(wr) if cc.is_call(x, "len")]
+    if foreign:
+        ctx.bad(R, f, stc, "each vector is padded by a width computed from %s, not from the filter it is then correlated with (%s): numpy pad modes whose "
+                "values depend on the pad width (linear_ramp, a callable) then give different values near the edges than padding by the "
+                "filter's own half-width, even if the surplus is sliced off afterwards" % (S.show(foreign[0])[:60], S.show(filt_e)[:40]),
+                "each slice is padded by its own filter's half-width")
     else:
-        raise AnalysisError("%s: the correlated operand is not np.pad(...): idiom not modelled" % R)
+        okw = S.compare(wl, want_w, domain={"flen": [Fraction(3), Fraction(5), Fraction(7)]})["verdict"] == "equal" and \
+            S.compare(wr, want_w, domain={"flen": [Fraction(3), Fraction(5), Fraction(7)]})["verdict"] == "equal"
+        ctx.check(okw, R, f, stc, "each slice is padded by (len(filt) - 1) // 2 on both sides, filt being the filter it is correlated with",
+                  "pad widths are (%s, %s)" % (S.show(wl)[:60], S.show(wr)[:60]))
+        ctx.check(opnd == pd, R, f, stc, "the padded slice itself is what gets correlated", "the correlated operand is %s" % S.show(opnd)[:100])
+    kws = {a_.args[0][3:]: a_.args[1] for a_ in pd.args[4:] if a_.op == "call" and isinstance(a_.args[0], str) and a_.args[0].startswith("kw:")}
+    padcalls = [x for x in astq.func_calls(f) if prog.qualify(f.module, x.func, f) == "numpy.pad"]
+    okm = pd.args[3] == S.sym("self._pad_mode") and len(padcalls) == 1 and any(k.arg is None and astq.text(k.value) == "self._pad_kwargs" for k in padcalls[0].keywords)
+    ctx.check(okm, R, f, padcalls[0] if padcalls else stc, "the configured pad mode and keyword arguments are used", "padding call is %s" % S.show(pd)[:120])
     # the cropped correlation is cast back to the input dtype before it is stored
     pm = astq.parents(f)
     st = astq.enclosing_stmt(pm, c)
@@ -112,8 +136,9 @@ def deltas_dtype(ctx, R="R-C15-dtype"):
               "the filtered slice is stored with dtype %s" % sorted(dt.of(st.value)))
     # which filters: orders 1..num_deltas in order, order 0 is the input itself
     loops = [n for n in f.body_nodes() if isinstance(n, ast.For) and "self._filts[1:]" in astq.text(n.iter).replace(" ", "")]
-    ctx.check(len(loops) == 1, R, f, f.node, "one block per delta order, in order (filters 1..num_deltas)",
-              "no loop over self._filts[1:]; the delta orders are not produced one per filter in order")
+    if len(loops) != 1:
+        raise AnalysisError("%s: no loop over self._filts[1:]: cannot tell that one block per delta order is produced in order (idiom not modelled)" % R)
+    ctx.ok(R, f.loc(loops[0]), "one block per delta order, in order (filters 1..num_deltas)")
 
 
 def kaldi_filters(ctx, R="R-C15-kaldi-filters"):
@@ -143,11 +168,20 @@ def kaldi_filters(ctx, R="R-C15-kaldi-filters"):
 def crop(ctx, R="R-C15-crop"):
     prog = ctx.prog
     f = _m(prog, "Deltas", "apply")
-    mo = [n for n in f.body_nodes() if isinstance(n, ast.Assign) and astq.is_name(n.targets[0], "max_offset")]
-    ctx.need(len(mo) == 1, R, "max_offset not found")
     ev = SymEval(prog, f)
     ev.env = {}
-    m_e = S.subst(ev.expr(mo[0].value), {S.call("len", S.sym("filt")): S.sym("flen")})
+    # the pad width actually applied on each side of the slice that is correlated (read off the np.pad call)
+    evf = SymEval(prog, f, inline_props=False).run()
+    corr_calls = [c_ for c_ in astq.func_calls(f) if prog.qualify(f.module, c_.func, f) == "numpy.correlate"]
+    ctx.need(len(corr_calls) == 1, R, "np.correlate call not found")
+    stc = astq.enclosing_stmt(astq.parents(f), corr_calls[0])
+    opnd = evf.eval_at(stc, corr_calls[0].args[0])
+    filt_e = evf.eval_at(stc, corr_calls[0].args[1])
+    pads = [x for x in S.walk(opnd) if cc.is_call(x, "np.pad")]
+    ctx.need(pads and cc.is_call(pads[0].args[2], "tuple"), R, "np.pad not found on the correlated operand")
+    ctx.need(opnd == pads[0], R, "the correlated operand is a slice of the padded vector: effective pad width not modelled")
+    m_e = S.subst(pads[0].args[2].args[1], {S.call("len", filt_e): S.sym("flen")})
+    ctx.need(not any(cc.is_call(x, "len") for x in S.walk(m_e)), R, "pad width is not a function of the correlated filter's length")
     sub = [n for n in f.body_nodes() if isinstance(n, ast.Subscript) and isinstance(n.slice, ast.Slice) and isinstance(n.value, ast.Call)
            and prog.qualify(f.module, n.value.func, f) == "numpy.correlate"]
     ctx.need(len(sub) == 1, R, "crop of the correlation not found")
